@@ -10,7 +10,8 @@ from ..symex import mk, num, cmp, land, lor, lnot, TRUE, FALSE, ite, neg
 from .quant_common import Quant
 
 RANGE = {'float': ('0x1p-60f', '0x1p60f', '0x1p-61f', '0x1p61f', '0x1p122f'),
-         'double': ('0x1p-500', '0x1p500', '0x1p-501', '0x1p501', '0x1p1002')}
+         'double': ('0x1p-500', '0x1p500', '0x1p-501', '0x1p501', '0x1p1002'),
+         'long double': ('0x1p-500', '0x1p500', '0x1p-501', '0x1p501', '0x1p1002')}    # unused: no bit-precise obligation for long double
 VECS = ('Vector', 'PlanarVector')
 DIRS = ('Direction', 'PlanarDirection')
 
@@ -34,15 +35,18 @@ def vec_requires(T, lv, kind):
 
 def run(check):
     tier = check.tier
-    types = ['float', 'double']
+    ieee_types = ['float', 'double']
+    types = ['float', 'double', 'long double']     # REAL obligations for double and long double; bit-precise ones for ieee_types
     check.checker_cmd = 'clang++ -ast-dump=json | phqv lower | goto-cc | goto-instrument --dfcc --enforce-contract Angle::Angle(a,b) --replace-call-with-contract {Magnitude,Dot} | cbmc ; REAL: phqv symex -> z3 nlsat'
     check.assume('libm acos contract (assumed): x in [-1,1] and not NaN => 0 <= acos(x) <= pi (rounded to the type) and not NaN; outside [-1,1] or NaN => NaN.  The domain condition is the proof obligation')
     check.assume('input range as the property states: finite components, squared length neither overflows nor underflows (float: 2^-60 <= max|c|, |c| <= 2^60; double: 2^-500, 2^500); directions satisfy their representation invariant (C10)')
     check.notes.append('agreement with atan2(|a x b|, a.b) to 1e-7 rad is arc-cosine conditioning of the real functions; not machine-checked (the REAL obligations establish the argument is a.b/(|a||b|))')
     jobs = []
     nk = 0
+    loaded = dict(zip(types, pmap(lambda T_: Quant(check, types=(T_,), other_types=(), conv=False, hash_=False), types)))
     for T in types:
-        Q = Quant(check, types=(T,), other_types=(), conv=False, hash_=False)
+        jobs_mark = len(jobs)
+        Q = loaded[T]
         low = Q.low
         tag = T.replace(' ', '_')
         small, big, lo_m, hi_m, big2 = RANGE[T]
@@ -103,7 +107,7 @@ def run(check):
                 quantity_ctors.append(f)
         if len(kernels) != 8:
             check.error('must-fire: expected 8 angle kernels for %s, found %d: %s' % (T, len(kernels), sorted(kernels)))
-        piup = {'float': '0x1.921fb6p+1f', 'double': '0x1.921fb54442d18p+1'}[T]
+        piup = {'float': '0x1.921fb6p+1f', 'double': '0x1.921fb54442d18p+1', 'long double': '0x1.921fb54442d18p+1'}[T]
         for (k1, k2), f in sorted(kernels.items()):
             nk += 1
             pl = param_leaves(low, f)
@@ -155,8 +159,10 @@ def run(check):
             jobs.append(HarnessJob(check, 'C11.symmetric.dot.%s.%s.%s' % (low.record(canon).template, ok, tag), low, [df, other], h, 1,
                                    function=df.qualname, loc=Q.loc(df), backend=['cvc5', 'sat'], timeout=300))
         check.extra['quantity_level_constructors_' + tag] = len(quantity_ctors)
-        if T == 'double':
+        if T in ('double', 'long double'):
             real_obligations(check, Q, kernels, tag)
+        if T not in ieee_types:
+            del jobs[jobs_mark:]
     check.extra['kernels_seen'] = nk
     check.log('%d IEEE obligations' % len(jobs))
     run_jobs(check, jobs)
